@@ -1045,12 +1045,6 @@ impl ExtensionStore {
             HashMap<SimpleSelector, IndexMap<ComplexSelector, Extension>>,
         > = None;
         for extension in extensions {
-            let mut sources = self
-                .extensions
-                .get(&extension.target.clone().unwrap())
-                .unwrap()
-                .clone();
-
             // `extend_existing_selectors` would have thrown already.
             let selectors: Vec<ComplexSelector> = if let Some(v) = self.extend_complex(
                 extension.extender.clone(),
@@ -1071,9 +1065,14 @@ impl ExtensionStore {
             }
             */
 
+            let sources = self
+                .extensions
+                .get_mut(extension.target.as_ref().unwrap())
+                .unwrap();
+
             let contains_extension = selectors.first() == Some(&extension.extender);
 
-            let mut first = false;
+            let mut first = true;
             for complex in selectors {
                 // If the output contains the original complex selector, there's no
                 // need to recreate it.
@@ -1085,13 +1084,11 @@ impl ExtensionStore {
                 let with_extender = extension.clone().with_extender(complex.clone());
                 let existing_extension = sources.get(&complex);
                 if let Some(existing_extension) = existing_extension.cloned() {
-                    let mut merged =
+                    let merged =
                         MergedExtension::merge(existing_extension.clone(), with_extender)?;
-                    sources.get_mut(&complex).replace(&mut merged);
+                    sources.insert(complex.clone(), merged);
                 } else {
-                    sources
-                        .get_mut(&complex)
-                        .replace(&mut with_extender.clone());
+                    sources.insert(complex.clone(), with_extender.clone());
 
                     for component in complex.components.clone() {
                         if let ComplexSelectorComponent::Compound(component) = component {
